@@ -15,8 +15,8 @@ BUDGET = {'quick': 100, 'thorough': 900}
 FLOORS = {'quick': {'binary.membership': 200, 'reclassify.first_bin_rule': 300, 'equal_interval.index': 200, 'quantile.bands': 200,
                     'natural_breaks.optimal': 60, 'order_preserving': 600, 'finite_cells_classified': 600, 'range_0_k-1': 600,
                     'dask.equal_interval': 30, 'dask.quantile.range_order': 30, 'max_cell_classified': 600},
-          'thorough': {'binary.membership': 2000, 'reclassify.first_bin_rule': 3000, 'natural_breaks.optimal': 600,
-                       'equal_interval.index': 2000, 'quantile.bands': 2000}}
+          'thorough': {'binary.membership': 1500, 'reclassify.first_bin_rule': 1500, 'natural_breaks.optimal': 300,
+                       'equal_interval.index': 1000, 'quantile.bands': 1000}}
 DONTCARE_OF = {'equal_interval.boundary_band': 'equal_interval.cells_judged', 'quantile.boundary_band': 'quantile.cells_judged'}
 EXHAUSTIVE = {'quick': ['reclassify: every position of a value relative to the bins for bin counts 1..8',
                         'k in 2..40 for quantile/equal_interval over the run (each k at least once)'],
